@@ -128,6 +128,9 @@ static int h_event(coap_session_t *s, const coap_event_t ev) {
     cur_sock = &s->sock;
   }
   fprintf(evl, "%x,", (unsigned)ev);
+  /* the session object is freed right after this event: never touch it again (hostile streams
+   * with traffic behind Release/Abort, used by the C02 check) */
+  if (ev == COAP_EVENT_SERVER_SESSION_DEL && s == cur) cur_sock = NULL;
   if (s == cur && !closed_seen &&
       (ev == COAP_EVENT_TCP_CLOSED || ev == COAP_EVENT_SESSION_CLOSED ||
        ev == COAP_EVENT_SESSION_FAILED)) {
